@@ -140,7 +140,10 @@ def step (w : List String) : String :=
     | some (rows, _) =>
       -- large row numbers: the guards, then the slot count (theorem `checkSheet_slots`
       -- and `no_panic_checkSheet` say this is what `checkSheet` yields)
-      if rows.any (fun r => decide (r.r < 0)) || rows.any (fun r => decide (r.r > (Facts.TotalRows : Int))) then "E_SHEET"
+      if rows.any (fun r => r.cells.any fun c => match c.r.coords with
+          | some (col, _) => decide (col < 1)
+          | none => false) then "outside-theorem"   -- hypothesis of `no_panic_checkSheet_partial` fails: use `cs`
+      else if rows.any (fun r => decide (r.r < 0)) || rows.any (fun r => decide (r.r > (Facts.TotalRows : Int))) then "E_SHEET"
       else "ok " ++ toString (rowSlots rows)
     | none => "bad-op"
   | ["gv", t, v, s, nSI, nXf, raw] =>
